@@ -193,4 +193,86 @@ theorem jsonNumText_grammar_exp (cfg : Config) (npl : Nat) (d : Dec)
         rw [he] at this ⊢
         simpa [isJsonNumber_neg c r hc] using this
 
+theorem natStr_head_ne_zero (n : Nat) (h : n ≠ 0) :
+    ∃ c r, natStr n = c :: r ∧ isDigit c = true ∧ (∀ x ∈ r, isDigit x = true) ∧ c ≠ '0' := by
+  unfold natStr
+  rw [if_neg h]
+  obtain ⟨d, l, hl, hd0, hd, hlt⟩ := digitsLE_reverse_shape n h
+  rw [hl]
+  refine ⟨digitChar d, l.map digitChar, by simp, isDigit_digitChar d hd, ?_, digitChar_ne_zero d hd hd0⟩
+  intro x hx
+  obtain ⟨y, hy, rfl⟩ := List.mem_map.mp hx
+  exact isDigit_digitChar y (hlt y hy)
+
+/-- a plain integer text: digits without a leading zero (or the single digit `0`) -/
+theorem isJsonNumber_int (c : Char) (r : List Char) (hc : isDigit c = true) (hr : ∀ x ∈ r, isDigit x = true)
+    (hz : c = '0' → r = []) : isJsonNumber (c :: r) = true := by
+  have hcm := isDigit_ne_minus c hc
+  have hdw : r.dropWhile isDigit = [] := by
+    clear hz
+    induction r with
+    | nil => rfl
+    | cons a r ih =>
+      have ha := hr a (by simp)
+      simp only [List.dropWhile_cons, ha, if_true]
+      exact ih (fun x hx => hr x (by simp [hx]))
+  by_cases h0 : c = '0'
+  · have := hz h0; subst this; subst h0; decide
+  · unfold isJsonNumber; simp [hcm, h0, hc, hdw]
+
+/-- integers (scale ≤ 0) in every layout `Display` can choose -/
+theorem jsonNumText_grammar_int (cfg : Config) (npl : Nat) (d : Dec) (hs : d.scale ≤ 0) :
+    isJsonNumber (jsonNumText cfg npl d) = true := by
+  cases hnot : chooseNotation cfg d.int.natAbs d.scale none with
+  | dotless => exact jsonNumText_grammar_exp cfg npl d (Or.inl (by rw [hnot]; decide))
+  | exponential => exact jsonNumText_grammar_exp cfg npl d (Or.inl (by rw [hnot]; decide))
+  | full =>
+    unfold jsonNumText
+    by_cases hz : d.int = 0 ∧ d.scale < 0
+    · rw [if_pos hz]; decide
+    · rw [if_neg hz]
+      unfold display
+      simp only [padIntegral_default]
+      rw [hnot]
+      simp only
+      unfold fullScaleText
+      simp only [hs, if_true]
+      -- the text without the sign starts with a digit and is a JSON number
+      have key : ∃ c r, (if (zeroRightPad cfg npl (natStr d.int.natAbs) (-d.scale).toNat none).2 ≠ 0 then
+            (zeroRightPad cfg npl (natStr d.int.natAbs) (-d.scale).toNat none).1 ++ ['e'] ++
+              intStrPlus (zeroRightPad cfg npl (natStr d.int.natAbs) (-d.scale).toNat none).2
+          else (zeroRightPad cfg npl (natStr d.int.natAbs) (-d.scale).toNat none).1) = c :: r ∧
+          isDigit c = true ∧ isJsonNumber (c :: r) = true := by
+        rcases zeroRightPad_none cfg npl (natStr d.int.natAbs) (-d.scale).toNat with ⟨h1, hne⟩ | h1
+        · rw [h1]
+          simp only [ne_eq, hne, not_false_eq_true, if_true]
+          obtain ⟨c, r, he, hc⟩ := dotlessText_head d.int.natAbs (-(((-d.scale).toNat : Nat) : Int))
+          have hj := isJsonNumber_dotless d.int.natAbs (-(((-d.scale).toNat : Nat) : Int))
+          unfold dotlessText at he hj
+          rw [neg_neg] at he hj
+          exact ⟨c, r, he, hc, by rw [← he]; exact hj⟩
+        · rw [h1]
+          simp only [ne_eq, not_true_eq_false, if_false]
+          by_cases hn0 : d.int.natAbs = 0
+          · have hi : d.int = 0 := Int.natAbs_eq_zero.mp hn0
+            have hsc : d.scale = 0 := by
+              by_contra hne; exact hz ⟨hi, by omega⟩
+            refine ⟨'0', [], ?_, by decide, by decide⟩
+            simp [hn0, hsc, natStr, zeros]
+          · obtain ⟨c, r, hn, hc, hr, hc0⟩ := natStr_head_ne_zero d.int.natAbs hn0
+            refine ⟨c, r ++ zeros (-d.scale).toNat, by simp [hn], hc, ?_⟩
+            apply isJsonNumber_int c _ hc
+            · intro x hx
+              rcases List.mem_append.mp hx with hx | hx
+              · exact hr x hx
+              · have : x = '0' := by
+                  unfold zeros at hx; exact (List.mem_replicate.mp hx).2
+                subst this; decide
+            · intro e; exact absurd e hc0
+      obtain ⟨c, r, he, hc, hj⟩ := key
+      rw [he]
+      cases hneg : decide (d.int < 0)
+      · simpa using hj
+      · simpa [isJsonNumber_neg c r hc] using hj
+
 end BigDec
